@@ -19,7 +19,7 @@ TECHNIQUE = 'contract-based deductive verification: per-function postconditions 
 
 def faults_small_documents(seed):
     """the sentence of the property on a catalogue of single faults: for each
-    of 15 faulty sources (unterminated inline / displayed maths in five
+    of 19 faulty sources (four of them with form feed, U+2028 and other characters that are line boundaries for str.splitlines only; unterminated inline / displayed maths in five
     spellings, open mandatory / optional argument at the end of the text,
     unterminated \\verb / verbatim, unclosed skip comment, accent on a
     non-letter, unreadable \\LTinput file) and each of three option sets
@@ -49,7 +49,13 @@ def faults_small_documents(seed):
         # the same fault twice gives two diagnostics and two marks
         ('Alpha \\LTinput{/nonexistent-dir/x.tex} beta\n'
          '\\LTinput{/nonexistent-dir/x.tex} gamma', 2),
-        ("Alpha \\'{1} beta \\'{1} gamma", 2)]
+        ("Alpha \\'{1} beta \\'{1} gamma", 2),
+        # characters that str.splitlines treats as line boundaries, but the
+        # documented line / column do not (only \\n ends a line)
+        ('Alpha\x0c gamma \\verb|beta', False),
+        ('first line\nAl\u2028pha \\section{beta', False),
+        ('first\nA\x0bB\x1cC $x = 1 rest' + tail, True),
+        ('Al\x85pha\u2029 \\label{beta', False)]
     sound = ['A $x = 1$ rest' + tail, 'A \\[ x = 1 \\]' + tail,
              'A \\begin{equation} x = 1. \\end{equation}' + tail,
              'Alpha \\textbf{beta}', 'Alpha \\verb|beta|',
@@ -114,7 +120,7 @@ def faults_small_documents(seed):
                               'source: %r %r' % (txt, err)})
     return {'name': 'faults-give-one-diagnostic-and-one-mark-at-its-place',
             'bounded': True,
-            'bound': '15 faulty + 6 well-formed sources x 3 option sets',
+            'bound': '19 faulty + 6 well-formed sources x 3 option sets',
             'evaluations': n, 'failures': fails[:8]}
 
 
